@@ -103,11 +103,12 @@ theorem entryClass_none : entryClass (.leaf .none) (.leaf .none) = AssetClass.na
 theorem lower_multi (s : Scope) (σ : ArgMap) (ints : String → Int) (cls : String → AssetClass) (ctx : Ctx)
     (hl : ctx.lvl ≠ 0) (hA : AdaBuiltin s) :
     ∀ (e : MExp), ScopeOf s σ ints e.pars → (∀ x ∈ e.toks, TokOf s cls x) → e.Fits ints cls → ∀ k,
-      ∃ t, lowerE s (e.depth + 2 + k) ctx e.toL = .ok t ∧
+      ∃ t, lowerE s (e.depth + 2 + k) ctx e.toL = .ok t ∧ Inert t ∧
         ∀ m, ∃ r, reduceF (e.depth + 2 + m) (applyArgs σ t) = .ok r ∧ Denotes r (e.den ints cls)
   | .ada i, h, _, hf, k => by
     obtain ⟨ti, hli, hri⟩ := lower_int s σ ints ctx hl i h hf (k + 1)
-    refine ⟨.node .assets [none', none', ti], ?_, ?_⟩
+    have hin : Inert ti := lower_int_inert s σ ints i h _ _ _ hli
+    refine ⟨.node .assets [none', none', ti], ?_, Inert_assets3 (Inert_leaf _) (Inert_leaf _) hin, ?_⟩
     · rw [show (MExp.ada i).depth + 2 + k = (i.depth + 1 + (k + 1)) + 1 by simp only [MExp.depth]; omega, MExp.toL, lowerE]
       simp only [hl, hA.1, hA.2, hli, ok_bind, if_false, Bool.not_false, Bool.and_true, decide_true,
         Bool.true_and, show ("Ada" = "min_utxo") = False by decide, show ("Ada" = "tip_slot") = False by decide,
@@ -126,7 +127,8 @@ theorem lower_multi (s : Scope) (σ : ArgMap) (ints : String → Int) (cls : Str
   | .tok x i, h, ht, hf, k => by
     obtain ⟨h1x, h2x, h3x, h4x, h5x, ph, nh, pb, nb, hres, hpb, hnb, hcls⟩ := ht x (by simp [MExp.toks])
     obtain ⟨ti, hli, hri⟩ := lower_int s σ ints ctx hl i h hf (k + 1)
-    refine ⟨.node .assets [.leaf (.bytes pb), .leaf (.bytes nb), ti], ?_, ?_⟩
+    have hin : Inert ti := lower_int_inert s σ ints i h _ _ _ hli
+    refine ⟨.node .assets [.leaf (.bytes pb), .leaf (.bytes nb), ti], ?_, Inert_assets3 (Inert_leaf _) (Inert_leaf _) hin, ?_⟩
     · rw [show (MExp.tok x i).depth + 2 + k = (i.depth + 1 + (k + 1)) + 1 by simp only [MExp.depth]; omega, MExp.toL, lowerE]
       have e3 : i.depth + 1 + (k + 1) = (i.depth + 1 + k) + 1 := by omega
       have hp : lowerE s (i.depth + 1 + (k + 1)) ctx (.leaf (.hex ph)) = .ok (.leaf (.bytes pb)) := by
@@ -146,11 +148,11 @@ theorem lower_multi (s : Scope) (σ : ArgMap) (ints : String → Int) (cls : Str
       rw [e2]
       simp only [reduceF, ok_bind]
   | .add a b, h, ht, hf, k => by
-    obtain ⟨ta, hla, hra⟩ := lower_multi s σ ints cls ctx hl hA a (fun x hx => h x (by simp [MExp.pars, hx]))
+    obtain ⟨ta, hla, hia, hra⟩ := lower_multi s σ ints cls ctx hl hA a (fun x hx => h x (by simp [MExp.pars, hx]))
       (fun x hx => ht x (by simp [MExp.toks, hx])) hf.1 (max a.depth b.depth - a.depth + k)
-    obtain ⟨tb, hlb, hrb⟩ := lower_multi s σ ints cls ctx hl hA b (fun x hx => h x (by simp [MExp.pars, hx]))
+    obtain ⟨tb, hlb, hib, hrb⟩ := lower_multi s σ ints cls ctx hl hA b (fun x hx => h x (by simp [MExp.pars, hx]))
       (fun x hx => ht x (by simp [MExp.toks, hx])) hf.2.1 (max a.depth b.depth - b.depth + k)
-    refine ⟨builtin .add [ta, tb], ?_, ?_⟩
+    refine ⟨builtin .add [ta, tb], ?_, Inert_builtin2 _ hia hib, ?_⟩
     · rw [show (MExp.add a b).depth + 2 + k = (a.depth + 2 + (max a.depth b.depth - a.depth + k)) + 1 by
         simp only [MExp.depth]; omega, MExp.toL, lowerE]
       simp only [hla, ok_bind]
@@ -172,11 +174,11 @@ theorem lower_multi (s : Scope) (σ : ArgMap) (ints : String → Int) (cls : Str
       · obtain ⟨c, hc, hamt⟩ := C01_assets_add hva hvb hok
         exact ⟨c, hc, fun k' => by rw [hamt k', hama k', hamb k']; rfl⟩
   | .sub a b, h, ht, hf, k => by
-    obtain ⟨ta, hla, hra⟩ := lower_multi s σ ints cls ctx hl hA a (fun x hx => h x (by simp [MExp.pars, hx]))
+    obtain ⟨ta, hla, hia, hra⟩ := lower_multi s σ ints cls ctx hl hA a (fun x hx => h x (by simp [MExp.pars, hx]))
       (fun x hx => ht x (by simp [MExp.toks, hx])) hf.1 (max a.depth b.depth - a.depth + k)
-    obtain ⟨tb, hlb, hrb⟩ := lower_multi s σ ints cls ctx hl hA b (fun x hx => h x (by simp [MExp.pars, hx]))
+    obtain ⟨tb, hlb, hib, hrb⟩ := lower_multi s σ ints cls ctx hl hA b (fun x hx => h x (by simp [MExp.pars, hx]))
       (fun x hx => ht x (by simp [MExp.toks, hx])) hf.2.1 (max a.depth b.depth - b.depth + k)
-    refine ⟨builtin .sub [ta, tb], ?_, ?_⟩
+    refine ⟨builtin .sub [ta, tb], ?_, Inert_builtin2 _ hia hib, ?_⟩
     · rw [show (MExp.sub a b).depth + 2 + k = (a.depth + 2 + (max a.depth b.depth - a.depth + k)) + 1 by
         simp only [MExp.depth]; omega, MExp.toL, lowerE]
       simp only [hla, ok_bind]
@@ -215,7 +217,7 @@ theorem C01_multi_asset_fragment (s : Scope) (σ : ArgMap) (ints : String → In
     (ht : ∀ x ∈ e.toks, TokOf s cls x) (hf : e.Fits ints cls) (k m : Nat) :
     ∃ t r, lowerE s (e.depth + 2 + k) ctx e.toL = .ok t ∧
       reduceF (e.depth + 2 + m) (applyArgs σ t) = .ok r ∧ Denotes r (e.den ints cls) := by
-  obtain ⟨t, h1, h2⟩ := lower_multi s σ ints cls ctx hl hA e hs ht hf k
+  obtain ⟨t, h1, _, h2⟩ := lower_multi s σ ints cls ctx hl hA e hs ht hf k
   obtain ⟨r, h3, h4⟩ := h2 m
   exact ⟨t, r, h1, h3, h4⟩
 
